@@ -223,3 +223,8 @@ package graph
 //@     invariant all_kept: !dropNegative ==> forall i int :: 0 <= i && i < $i && nodes[i] != nil && !(nodes[i].Cum == 0 && nodes[i].Flat == 0) ==> exists k int :: 0 <= k && k < len(gNodes) && gNodes[k] == nodes[i]
 //@     invariant frame: forall i int :: 0 <= i && i < len(nodes) ==> nodes[i] == old(nodes[i])
 //@     invariant sep: fresh(gNodes) && (len(nodes) == 0 || !fresh(nodes))
+
+// ---- C08: joinLabels — the label strings gathered from the (unordered) label map are sorted before they are joined ----
+//@ func joinLabels nosafety
+//@   mustcall Strings sorted: true when len(s.Label) != 0
+//@   callsite Join after_sort: aftercall("Strings", true) && same_elems($arg0, labels)
